@@ -50,32 +50,47 @@ def _component(f, x, i, h, f0mag, min_side=None):
     return R, err
 
 
-def richardson_gradient(f, x, h0=1e-3, max_shrink=14, good_rel=1e-7):
+def richardson_gradient(f, x, h0=1e-3, max_shrink=18, good_rel=1e-7):
     """Gradient of scalar f at x (1-D float array) with per-component error estimates.
 
-    Returns (grad, err, steps).  Steps start at h0*max(1,|x_i|) and are divided by 8
-    while the stencil touches non-finite values of f or the error estimate is not
-    yet `good_rel` relative; the best (smallest err) attempt is kept."""
+    Returns (grad, err, steps).  Steps start at h0*max(1,|x_i|) (and, for problems living on a tiny scale,
+    also at h0*max|x|) and are divided by 8 while the stencil touches non-finite values of f or the error
+    estimate is not yet `good_rel` *relative to the derivative itself*; the search stops once the estimate
+    got worse twice in a row (round-off regime) and the best (smallest err) attempt is kept.  Nothing in here
+    compares against an absolute magnitude: tiny and huge derivatives are treated alike."""
     x = np.array(x, dtype=float).reshape(-1)
     n = x.size
     f0 = _scalar(f(x.copy()))
     g = np.full(n, np.nan); e = np.full(n, np.inf); hs = np.zeros(n)
     if not np.isfinite(f0):
         return g, e, hs
+    xmax = float(np.max(np.abs(x))) if n else 0.0
     for i in range(n):
-        h = h0 * max(1.0, abs(x[i]))
+        starts = [h0 * max(1.0, abs(x[i]))]
+        if 0.0 < xmax < 1e-2:
+            starts.append(h0 * xmax)
+        if 0.0 < abs(x[i]) < 1e-2 * xmax or (0.0 < abs(x[i]) < 1e-2 and abs(x[i]) != xmax):
+            starts.append(h0 * abs(x[i]))
         best = None
-        good_tries = 0
-        for _ in range(max_shrink):
-            r = _component(f, x, i, h, abs(f0))
-            if r is not None:
-                if best is None or r[1] < best[1]:
-                    best = (r[0], r[1], h)
-                good_tries += 1
-                if r[1] <= good_rel * max(1.0, abs(r[0])) or good_tries >= 4:
+        rel = lambda r: r[1] / max(abs(r[0]), 1e-300)      # candidates are ranked by their error relative to themselves
+        for h in starts:
+            prev, worse, tries = None, 0, 0
+            for _ in range(max_shrink):
+                r = _component(f, x, i, h, abs(f0))
+                if r is not None:
+                    tries += 1
+                    if best is None or rel(r) < rel(best):
+                        best = (r[0], r[1], h)
+                    if r[1] <= good_rel * abs(r[0]):
+                        break
+                    worse = worse + 1 if (prev is not None and r[1] >= prev) else 0
+                    prev = r[1]
+                    if worse >= 2 and tries >= 3:
+                        break
+                h /= 8.0
+                if x[i] + h / 4 == x[i] or h < 1e-300:
                     break
-            h /= 8.0
-            if h < 1e-11 * max(1.0, abs(x[i])):
+            if best is not None and best[1] <= good_rel * abs(best[0]):
                 break
         if best is not None:
             # a-posteriori confirmation with an un-nested step (h/3): two independent extrapolations must agree;
@@ -83,16 +98,18 @@ def richardson_gradient(f, x, h0=1e-3, max_shrink=14, good_rel=1e-7):
             r = _component(f, x, i, best[2] / 3.0, abs(f0))
             if r is not None:
                 diff = abs(r[0] - best[0])
-                best = (r[0], max(r[1], diff), best[2] / 3.0) if r[1] <= best[1] else (best[0], max(best[1], diff), best[2])
+                best = (r[0], max(r[1], diff), best[2] / 3.0) if rel(r) <= rel(best) else (best[0], max(best[1], diff), best[2])
         if best is None:
             # the point sits on the edge of the region where f is finite: one-sided derivative
             for sign in (+1.0, -1.0):
                 h = h0 * max(1.0, abs(x[i]))
-                for _ in range(6):
+                for _ in range(max_shrink):
                     r = _one_sided(f, x, i, sign * h, f0)
                     if r is not None and (best is None or r[1] < best[1]):
                         best = (r[0], r[1], sign * h)
                     h /= 8.0
+                    if x[i] + h / 4 == x[i]:
+                        break
                 if best is not None:
                     break
         if best is not None:
